@@ -116,6 +116,9 @@ class StmtMixin:
                 return sym.dict_empty(ty)
             if isinstance(ty, TSet):
                 return sym.set_empty(ty)
+            if ty == sym.TAny:
+                # an empty list/dict display bound to an opaque (Any) slot: an arbitrary opaque handle (nothing is known of it)
+                return sym.fresh(sym.TAny, self.ctx.fresh_name("emptylit"))
             raise Unsupported("empty literal for %s" % ty)
         return sym.coerce(val, ty)
 
